@@ -710,7 +710,8 @@ pub(crate) fn write_optional_description(
     if let Some(description) = description {
         query_type_declaration.push_str(&"  ".repeat(indentation_level as usize).to_string());
         query_type_declaration.push_str("/**\n");
-        query_type_declaration.push_str(description.lookup());
+        // A description must not be able to close the comment it is written into
+        query_type_declaration.push_str(&description.lookup().replace("*/", "*\\/"));
         query_type_declaration.push('\n');
         query_type_declaration.push_str(&"  ".repeat(indentation_level as usize).to_string());
         query_type_declaration.push_str("*/\n");
